@@ -49,13 +49,7 @@ def abstract_value(ip, cr, st, tix, name, depth=0):
     if k == "ref":
         cell = ("A", name)
         inner = cr.types[t["inner"]]
-        if inner["k"] in ("param", "alias") and not ip.is_bytes_ty(cr, t["inner"]):
-            try:
-                st.heap[cell] = abstract_value(ip, cr, st, t["inner"], name, depth + 1)
-            except Undecided:
-                st.heap[cell] = ("opaque", inner["s"])
-        else:
-            st.heap[cell] = abstract_value(ip, cr, st, t["inner"], name, depth + 1)
+        st.heap[cell] = abstract_value(ip, cr, st, t["inner"], name, depth + 1)
         return vref(Target(cell))
     if k == "uint":
         if t["name"] == "usize":
@@ -68,6 +62,33 @@ def abstract_value(ip, cr, st, tix, name, depth=0):
         ln = ip.sizeof(cr, tix)
         T.declare_var(name, ln)
         return vbytes(T.bvar(name))
+    if k == "adt" and (t["adt"].endswith("::InOutBuf") or t["adt"].endswith("::InOut")):
+        et = type_args(t)[0]
+        esz = ip.sizeof(cr, et)
+        if t["adt"].endswith("::InOutBuf"):
+            # every length has a unique decomposition L = k*bs + d, 0 <= d < bs
+            bsz = ip.ctx.alias_len["BlockSize"]
+            kk, dd = Lin.sym("k"), Lin.sym("d")
+            cnt = kk * bsz + dd
+            st.F.add_ge(kk)
+            st.F.add_ge(dd)
+            st.F.add_ge(bsz - 1 - dd)
+            total = cnt * esz
+            st.decomp[(cnt, bsz)] = (kk, dd)
+        else:
+            total = esz
+        T.declare_var("in", total)
+        T.declare_var("out_old", total)
+        st.heap[("A", "in")] = vbytes(T.bvar("in"))
+        tin = Target(("A", "in"), (("br", ZERO, total),))
+        if ip.ctx.extra.get("alias"):
+            tout = tin
+        else:
+            st.heap[("A", "out")] = vbytes(T.bvar("out_old"))
+            tout = Target(("A", "out"), (("br", ZERO, total),))
+        if t["adt"].endswith("::InOutBuf"):
+            return ("iobuf", tin, tout, esz)
+        return ("inout", tin, tout)
     if k == "adt":
         a = adt_of(cr, t["adt"]) if t.get("local") else None
         if a and a["kind"] == "struct" and t.get("local"):
@@ -93,6 +114,11 @@ def abstract_value(ip, cr, st, tix, name, depth=0):
             ip.ctx.param_len = saved
             return vstruct(t["adt"], fields)
         return ("opaque", t["s"])
+    if k == "alias":
+        nm = t["alias_def"].split("::")[-1]
+        bound = ip.ctx.extra.get(("assoc_ty", nm))
+        if bound is not None:
+            return abstract_value(ip, cr, st, bound, name, depth + 1)
     if k in ("param", "alias"):
         return ("opaque", t["s"])
     if k == "tuple" and not t["elems"]:
@@ -105,7 +131,10 @@ def summarise_paths(ip, results, cells):
     for st, ret in results:
         d = {"ret": ret, "cells": {}, "events": st.events, "oblig": st.oblig, "conds": st.conds, "F": st.F, "state": st}
         for nm, cell in cells.items():
-            d["cells"][nm] = st.heap.get(cell)
+            v = st.heap.get(cell)
+            if v is not None and v[0] == "bytes":
+                v = vbytes(T.bnorm(v[1], st.F))
+            d["cells"][nm] = v
         out.append(d)
     return out
 
@@ -185,3 +214,37 @@ def show_value(v):
     if v[0] == "enum":
         return "%s(%s)" % (v[3], ", ".join(show_value(x) for x in v[4]))
     return repr(v)
+
+
+# ---------------------------------------------------------------- CTR
+CHUNKS = Lin.sym("chunks")
+
+
+def ctr_flavors(facts):
+    cr = facts.crate("ctr")
+    out = []
+    for im in cr.impls:
+        if im.get("trait_name") == "CtrFlavor":
+            out.append(im)
+    return cr, out
+
+
+def ctr_ctx(cr, im):
+    """context for one CtrFlavor impl: block size = CS * chunks."""
+    c = base_ctx()
+    at = {it["name"]: it for it in im["items"]}
+    nonce_ty = at["CtrNonce"]["ty"]
+    backend_ty = cr.types[at["Backend"]["ty"]]
+    w = int(backend_ty["name"][1:])
+    cs = w // 8
+    bs = CHUNKS * cs
+    c.param_len = {"BS": bs, "B": bs}
+    c.alias_len = {"BlockSize": bs, "ParBlocksSize": NPAR, "IvSize": bs}
+    c.trait_impl = {im["trait"]: (cr, im)}
+    c.extra[("assoc_ty", "CtrNonce")] = nonce_ty
+    c.extra["w"] = w
+    c.extra["cs"] = cs
+    F = Facts()
+    F.add_ge(CHUNKS - 1)
+    F.add_ge(NPAR - 1)
+    return c, F
